@@ -10,29 +10,29 @@ Record case := mk {
   c_old : list string;
   c_script : list string;
   c_expect : option (list string);      (* the target file, when the script was derived from one *)
-  c_obs : result (list string);         (* what the implementation did *)
+  c_obs : result (list string);         (* what the implementation did, patches streamed into patch_lines *)
+  c_obs2 : result (list string);        (* the same with the patches collected into a list first *)
 }.
 
 Definition model_run (b : bool) (old script : list str) : result (list str) :=
   if b then apply_script is_ascii_digit ascii_digit_val old script
   else apply_script re_d nd_val old script.
 
-Definition obs_of (c : case) : result (list str) :=
-  match c_obs c with Ok ls => Ok (map dec ls) | Err e => Err e end.
+Definition dec_obs (o : result (list string)) : result (list str) :=
+  match o with Ok ls => Ok (map dec ls) | Err e => Err e end.
 
 Definition agree (c : case) : bool :=
-  result_eqb strs_eqb (model_run (c_bytes c) (map dec (c_old c)) (map dec (c_script c)))
-    (obs_of c).
+  let m := model_run (c_bytes c) (map dec (c_old c)) (map dec (c_script c)) in
+  result_eqb strs_eqb m (dec_obs (c_obs c)) && result_eqb strs_eqb m (dec_obs (c_obs2 c)).
 
 (** A decimal digit the str pattern accepts but ed's grammar does not:
     such scripts are outside the property's domain. *)
 Definition has_foreign_digit (ls : list str) : bool :=
   existsb (existsb (fun ch => re_d ch && negb (is_ascii_digit ch))) ls.
 
-Definition holds (c : case) : bool :=
+Definition holds_obs (c : case) (obs : result (list str)) : bool :=
   let old := map dec (c_old c) in
   let script := map dec (c_script c) in
-  let obs := obs_of c in
   (match c_expect c with
    | Some n => result_eqb strs_eqb obs (Ok (map dec n))
    | None => true
@@ -48,6 +48,9 @@ Definition holds (c : case) : bool :=
        if has_foreign_digit script then true
        else result_eqb strs_eqb obs (Err ValueError)
    end).
+
+Definition holds (c : case) : bool :=
+  holds_obs c (dec_obs (c_obs c)) && holds_obs c (dec_obs (c_obs2 c)).
 
 Definition bad_agree (cs : list case) : list N := bad agree cs.
 Definition bad_holds (cs : list case) : list N := bad holds cs.
